@@ -150,7 +150,9 @@ def idStep (ts : List String) : Option String :=
   | ["fmt", v] =>
     match v.toInt? with
     | none => some "bad-op"
-    | some f => some s!"{formatInt f 10} {formatInt f 2} {formatInt f 36}"
+    | some f =>
+      -- `String()`, `Base2()`, `Base36()`: `strconv.FormatInt` with the bases found in the source
+      some s!"{formatInt f baseOfString} {formatInt f baseOfBase2} {formatInt f baseOfBase36}"
   | ["newgen", rb] =>
     match rb.toInt? with
     | none => some "bad-op"
